@@ -33,6 +33,7 @@ type Spec struct {
 	Desc           bool
 	Title          bool
 	AddProps       string // "", "true", "string", "integer", "number", "boolean", "array", "object", "false"
+	AddPropsSpec   *Spec  // additionalProperties given as a schema of its own (a $ref to a definition, typically): the value type of the map
 	AnyOf          []*Spec
 	AllOf          []*Spec
 	Twice          []string // keywords stated twice for one property by two allOf branches (filled by MergeAllOf)
@@ -123,6 +124,9 @@ func (s *Spec) clone(memo map[*Spec]*Spec) *Spec {
 		np.Name = nil
 		c.Props = append(c.Props, &np)
 	}
+	if s.AddPropsSpec != nil {
+		c.AddPropsSpec = s.AddPropsSpec.clone(memo)
+	}
 	c.AnyOf = nil
 	for _, a := range s.AnyOf {
 		c.AnyOf = append(c.AnyOf, a.clone(memo))
@@ -168,6 +172,9 @@ func (s *Spec) String() string {
 	}
 	if s.Ref != "" {
 		b.WriteString(" ref=" + s.Ref)
+	}
+	if s.AddPropsSpec != nil {
+		b.WriteString(" addProps=<" + s.AddPropsSpec.String() + ">")
 	}
 	if s.AddProps != "" {
 		b.WriteString(" addProps=" + s.AddProps)
@@ -478,6 +485,9 @@ func (b *builder) build(s *Spec, label string) gen.V {
 			f["Required"] = g.Strs(req...)
 		}
 	}
+	if s.AddPropsSpec != nil {
+		f["AdditionalProperties"] = b.build(s.AddPropsSpec, label+"Value")
+	}
 	switch s.AddProps {
 	case "":
 	case "true":
@@ -696,6 +706,8 @@ type FileSpec struct {
 	Name string // file name given to DoFile / used in $ref
 	ID   string // $id
 	Root *Spec
+	// NoRoot: the document has nothing at its root (only definitions placed there by other files' references)
+	NoRoot bool
 }
 
 // BuildFiles turns a set of file specs (with cross-file references) into abstract schemas by file name.
@@ -717,6 +729,10 @@ func BuildFiles(g *gen.G, files []*FileSpec) map[string]gen.V {
 		var defs gen.V
 		if len(keys) > 0 {
 			defs = g.Map(keys, vals)
+		}
+		if f.NoRoot {
+			out[f.Name] = g.Schema(nil, absint.Lit(f.ID), absint.Str{}, defs)
+			continue
 		}
 		out[f.Name] = g.Schema(roots[f.Name], absint.Lit(f.ID), absint.Str{}, defs)
 	}
